@@ -90,6 +90,19 @@ def run_fermat(desc):
       # any pair returned must at least multiply to n; but with k >= ms nothing may be found
       raise Violation('fermat:found-beyond-bound', n=n, steps=k, max_steps=ms,
                       got=[int(x) for x in res])
+  if desc.get('weak_first') and ms >= 1:
+    # a Fermat-factorable key is judged first by the same check object in the same batch: the verdict on
+    # the key under test must not depend on it
+    wp, wq, wk = fam.fermat_close(Material(desc['m'], 'c04fw'), desc['pbits'], 0)
+    chk = rsa_single_checks.CheckFermat(max_steps=ms)
+    first, key = art.rsa_key(wp * wq), art.rsa_key(n)
+    libcall(chk.Check, [first, key])
+    e = art.entry(key.test_info, 'CheckFermat')
+    fs = art.factor_set(key.test_info, 'N_FACTORS')
+    if e is None or bool(e[0]) != expect or bool(key.test_info.weak) != expect or (
+        fs != ({p, q} if expect else None)):
+      raise Violation('checkfermat:verdict-depends-on-earlier-key', steps=k, max_steps=ms, entry=e,
+                      factors=sorted(fs or []), expected_factored=expect)
   _check_key(rsa_single_checks.CheckFermat(max_steps=ms), n, p, q, expect, 'checkfermat',
              steps=k, max_steps=ms)
   cls = ['fermat pbits=%d' % desc['pbits'],
@@ -109,6 +122,7 @@ def strat_fermat(tier):
           st.tuples(st.just('rel'), st.sampled_from([0, 1])),
           st.tuples(st.just('abs'), st.sampled_from([0, 1, 2])),
           st.tuples(st.just('abs'), st.integers(0, maxt))).map(list),
+      'weak_first': st.sampled_from([False, False, True]),
   })
 
 
